@@ -43,7 +43,7 @@ THEOREMS = [
     "enu2trs_as_R3R1", "trs2enu_as_R1R3", "trs2enu_transpose", "enu_rotation", "enu_preserves", "enu_roundtrip",
     "up_is_normal", "normal_is_ellipsoid_gradient", "height_along_normal", "east_perp_axis_up", "north_completes_rh",
     "acr_orthonormal_rh", "acr_axes", "az_el_are_angles_in_triad", "posvel_block_roundtrip",
-    "check_all_sound", "acr_1d_transposed_refuted",
+    "model_exprs_ok", "check_all_sound", "check_rot_sound", "check_enu_sound", "check_delta_sound", "acr_1d_transposed_refuted",
 ]
 
 REQ = "From Verif Require Import Lib.Dyadic Model.C06_Rot."
@@ -180,7 +180,7 @@ def run(ctx):
         return True
 
     # ---- A. elementary rotations: scalar, (n,) array, list input; angles in [-4pi, 4pi]
-    n_ang = 60 if q else 700
+    n_ang = 140 if q else 1500
     angles = [gen_angle(rng) for _ in range(n_ang)]
     for k in (1, 2, 3):
         for deriv in (False, True):
@@ -209,7 +209,7 @@ def run(ctx):
                     fam["rot"].add(emit.pair(emit.z(k), emit.b(deriv), emit.dy(a), dys(m)), rep)
                     ctx.case(("rot", k, deriv, float(a), form), nontrivial=(a != 0.0), sample=rep if (k, deriv, i) == (3, False, 1) else None)
                     ctx.count(f"rot:{'d' if deriv else ''}R{k}:{form}")
-    n_grp = 60 if q else 600
+    n_grp = 150 if q else 1500
     for _ in range(n_grp):
         k = rng.choice((1, 2, 3))
         a, b = gen_angle(rng) / 2, gen_angle(rng) / 2
@@ -225,7 +225,7 @@ def run(ctx):
         ctx.count(f"group:R{k}")
 
     # ---- B. enu2trs / trs2enu as functions of (lat, lon): scalar and (n,) arrays, poles and the date line included
-    n_ll = 80 if q else 900
+    n_ll = 200 if q else 2500
     lls = [(la, lo) for la in LATS[:5] for lo in LONS[:5]][: (10 if q else 25)] + [gen_latlon(rng) for _ in range(n_ll)]
     lat_a, lon_a = np.array([x[0] for x in lls]), np.array([x[1] for x in lls])
     for to_trs, f, name in ((True, rotation.enu2trs, "rotation.enu2trs"), (False, rotation.trs2enu, "rotation.trs2enu")):
@@ -246,7 +246,7 @@ def run(ctx):
                 ctx.count(f"enu:{name.split('.')[1]}:{form}:{'pole' if abs(abs(la) - PI / 2) < 1e-9 else 'general'}")
 
     # ---- C. difference vectors through the data API, shapes (3,), (1,3), (n,3)
-    n_ref = 25 if q else 260
+    n_ref = 60 if q else 700
     for _ in range(n_ref):
         shape = rng.choice(["(3,)", "(1,3)", "(n,3)", "(n,3)"])
         n = 1 if shape != "(n,3)" else rng.randrange(2, 6)
@@ -297,7 +297,7 @@ def run(ctx):
                 ctx.case(("rt", fl(refs[i]), fl(dd), how), nontrivial=bool(np.any(dd)))
 
     # ---- D. along / cross / radial
-    n_orb = 14 if q else 150
+    n_orb = 30 if q else 400
     for _ in range(n_orb):
         shape = rng.choice(["(6,)", "(1,6)", "(n,6)", "(n,6)"])
         n = 1 if shape != "(n,6)" else rng.randrange(2, 5)
@@ -332,7 +332,7 @@ def run(ctx):
                 ctx.case(("rt-acr", fl(states[i]), fl(dd)), nontrivial=bool(dd.any()))
 
     # ---- E. azimuth / elevation / zenith distance
-    n_az = 30 if q else 300
+    n_az = 80 if q else 800
     for _ in range(n_az):
         shape = rng.choice(["(3,)", "(n,3)"])
         n = 1 if shape == "(3,)" else rng.randrange(2, 5)
@@ -340,7 +340,7 @@ def run(ctx):
         others = []
         for i in range(n):
             p = Position(fresh(refs[i]), system="trs")
-            m = out(p.enu2trs)
+            m = out(p.enu2trs).reshape(3, 3)   # (1,3,3) when trs2llh's cache was filled by a (1,3) call with the same bytes (C08)
             u = rng.random()
             el = rng.choice([PI / 2, -PI / 2, 0.0, 1.5, 1.5707, -1.0]) if u < 0.3 else math.asin(rng.uniform(-1, 1))
             az = rng.choice([0.0, PI, -PI, PI / 2, -PI / 2, math.nextafter(PI, 0)]) if rng.random() < 0.3 else rng.uniform(-PI, PI)
